@@ -44,6 +44,8 @@ SKELETONS = {
                      "k:REFERENCES o ( id ) k:ON s:DELETE CASCADE , k:CONSTRAINT k1 k:UNIQUE ( a , c ) ) ;")),
     "table_fk": ("", sk("k:CREATE k:TABLE t1 ( a int k:REFERENCES o ( id ) k:ON k:UPDATE CASCADE k:ON s:DELETE RESTRICT , b int k:DEFAULT 5 k:NOT k:NULL , "
                         "k:FOREIGN k:KEY ( b ) k:REFERENCES p ( y ) k:ON k:UPDATE CASCADE ) ;")),
+    "table_generated": ("", sk("k:CREATE k:TABLE t1 ( a int , b int k:GENERATED k:ALWAYS k:AS ( a * 2 ) k:STORED , c int k:NOT k:NULL ) ;")),
+    "table_mysql_glued": ("", sk("k:CREATE k:TABLE t1 ( a int ) COMMENT='orders' ENGINE=InnoDB COLLATE='utf8_bin' ;")),
     "table_items": ("", sk("k:CREATE k:TABLE t1 ( a int k:UNIQUE , b int k:NULL k:CHECK ( b > 1 ) , k:PRIMARY k:KEY ( a ) , k:FOREIGN k:KEY ( b ) k:REFERENCES o ( x ) ) ;")),
     "table_mysql": ("", sk("k:CREATE k:TABLE t1 ( a int k:COMMENT l:'c~1' ) k:ENGINE = InnoDB k:DEFAULT c:CHARSET = utf8 ;")),
     "table_hql": ("", sk("k:CREATE k:EXTERNAL k:TABLE k:IF k:NOT k:EXISTS t1 ( a int , b string ) k:PARTITIONED k:BY ( p date ) k:STORED k:AS PARQUET k:LOCATION l:'s3://x/y' ;")),
@@ -87,18 +89,32 @@ def tla_skeleton(name):
 
 
 def consts(name, **kw):
-    d = dict(Skeleton=tla_skeleton(name), Gaps='{"sp","sp3","tab","nl","crlf","blank","none"}', Cases='{"upper","lower","mixed"}', CaseBase='"upper"',
+    d = dict(Skeletons="<<" + tla_skeleton(name) + ">>", Gaps='{"sp","sp3","tab","nl","crlf","blank","none"}', Cases='{"upper","lower","mixed"}', CaseBase='"upper"',
              MaxOdd=1, LitClasses="{}", MaxLit=0, Mode='"layout"', WithHist="FALSE")
     d.update(kw)
     return d
 
 
-def mc(cs, what):
+def mc(cs, what, kinds_of=None, base="upper"):
+    """kinds_of: list (by skeleton index) of kind lists - used to expand each behaviour's odd choices into full gap / case arrays"""
     hist = cs["WithHist"] == "TRUE"
     r = C.run_tlc_wrapped("Scanner", cs, dict(spec="Spec", invariants=["GapIrrelevant", "CaseBlind"] + (["Emit"] if hist else [])),
                           workers=1 if hist else 4, timeout=900)
     C.require_tlc_ok(r, what)
+    if kinds_of is not None:
+        for b in r.beh:
+            kinds = kinds_of[b["sk"] - 1]
+            b["gaps"] = ["sp"] * len(kinds)
+            b["cases"] = [base if k in KWKINDS else "-" for k in kinds]
+            for o in b["odds"]:
+                if o["what"] == "gap":
+                    b["gaps"][o["pos"] - 1] = o["val"]
+                else:
+                    b["cases"][o["pos"] - 1] = o["val"]
     return r
+
+
+KWKINDS = {"kw", "kwdir", "kwcs", "stmtword", "kwdev_dir", "kwdev_autoinc", "kwdev_clustered", "kwdev_key"}
 
 
 def ci(x):
@@ -106,13 +122,162 @@ def ci(x):
     return x
 
 
+# ---- skeletons taken from the regression corpus ------------------------------------------------------------------------------------
+# words whose letter case the grammar must not care about: the lexer's keyword tables and the words the productions compare by
+# spelling, frozen from the pinned tree (value words such as storage formats / referential actions are NOT in it)
+CORPUS_KW = set("""ADD ALTER AS ASC AUTOINCREMENT AUTO_INCREMENT BY CACHE CHECK CLUSTER CLUSTERED COLLATE COLUMN COMMENT CONSTRAINT CREATE
+DEFAULT DEFERRABLE DESC DROP ENCODE ENFORCED EXISTS EXTERNAL FOR FOREIGN GENERATED IF INCREMENT INDEX INITIALLY INTO KEY LIKE LOCATION MAXVALUE
+MINVALUE MODIFY NO NOORDER NOT NULL ON OPTIONS OR ORDER PARTITION PARTITIONED PRIMARY REFERENCES RENAME REPLACE SEQUENCE START STORED TABLE
+TABLESPACE TBLPROPERTIES TEMPORARY TERMINATED TO UNIQUE UPDATE USING WITH ALWAYS""".split())
+NAME_AFTER = {"TABLE", "INDEX", "SEQUENCE", "CONSTRAINT", "COLUMN", "REFERENCES", "ON", "TO", "EXISTS", "SCHEMA", "TYPE", "DOMAIN", "DATABASE", "TABLESPACE"}
+OPENERS = {"LIKE", "CONSTRAINT", "FOREIGN", "PRIMARY", "INDEX", "UNIQUE", "CHECK", "WITH", "CLUSTER", "BY", "KEY"}
+STMT_WORDS = {"CREATE", "ALTER", "DROP", "SET", "GO", "USE", "INSERT", "GRANT", "DELETE"}
+HEAD = re.compile(r"^\s*(CREATE|ALTER)\b", re.I)
+
+
+def chunks(text):
+    """white-space separated chunks outside quotes, with the separator that follows each -> [(chunk, sep)]"""
+    out, cur, sep, q = [], "", "", None
+    i = 0
+    res = []
+    while i < len(text):
+        ch = text[i]
+        if q:
+            cur += ch
+            if ch == q:
+                q = None
+        elif ch in "'\"`":
+            cur += ch
+            q = ch
+        elif ch.isspace():
+            j = i
+            while j < len(text) and text[j].isspace():
+                j += 1
+            if cur:
+                res.append([cur, text[i:j]])
+                cur = ""
+            elif res:
+                res[-1][1] += text[i:j]
+            else:
+                res.append(["", text[i:j]])
+            i = j
+            continue
+        else:
+            cur += ch
+        i += 1
+    if cur:
+        res.append([cur, ""])
+    return res
+
+
+def corpus_skeletons(corp):
+    """-> list of (script index, chunks, kinds)"""
+    out = []
+    for i, r in enumerate(corp):
+        t = r["text"].replace("\r\n", "\n")
+        if "/*" in t or "--" in t or "#" in t or "\t" in t or not HEAD.match(t):
+            continue
+        if re.search(r"'[^']*\n[^']*'", t) or t.count("'") % 2 or t.count('"') % 2:
+            continue
+        ch = chunks(t)
+        if ch and ch[0][0] == "":
+            continue
+        if len(ch) < 4 or len(ch) > 120:
+            continue
+        kinds = []
+        start = True
+        prev = ""
+        is_table = bool(re.match(r"^\s*CREATE\s+(OR\s+REPLACE\s+)?(\w+\s+)?TABLE\b", t, re.I))
+        for c, sep in ch:
+            u = c.upper()
+            name_pos = prev in NAME_AFTER or ((prev in ("(", ",") or prev.endswith(("(", ","))) and u not in OPENERS)
+            if c in ("(", ")", ","):
+                k = {"(": "lp", ")": "rp", ",": "comma"}[c]
+            elif c[0] in "'\"`[":
+                k = "lit" if c[0] == "'" else "id"
+            elif u in STMT_WORDS and not start:
+                k = "stmtword"
+            elif name_pos:
+                k = "id"
+            elif u in ("ASC", "DESC"):
+                k = "kwdev_dir" if is_table else "kwdir"
+            elif u in ("START", "INCREMENT") and is_table:
+                k = "kwdev_autoinc"
+            elif u == "CLUSTERED":
+                k = "kwdev_clustered"
+            elif u == "KEY" and prev not in ("PRIMARY", "FOREIGN", "UNIQUE"):
+                k = "kwdev_key"
+            elif u in CORPUS_KW and (c.isalpha() or "_" in c):
+                k = "kw"
+            else:
+                k = "id"
+            start = c.endswith(";")
+            if start:
+                k = "stmtend"
+            kinds.append(k)
+            prev = u
+        out.append((i, ch, kinds))
+    return out
+
+
+def render_corpus(ch, gaps, cases):
+    parts = []
+    for (c, sep), g, cs in zip(ch, gaps, cases):
+        w = c if cs in ("-", "upper") else case_of(c, cs)       # base case "upper" = as written in the corpus
+        parts.append(w + (sep if g == "sp" else (GAP[g] if g != "none" else "")))
+    return "".join(parts)
+
+
+def corpus_layouts(V, corp, thorough, rnd, seed):
+    sks = corpus_skeletons(corp)
+    if not thorough:
+        sks = rnd.sample(sks, min(len(sks), 60))
+    n = 0
+    ntlc = [0, 0]
+    for b0 in range(0, len(sks), 20):
+        batch = sks[b0:b0 + 20]
+        cs = dict(Skeletons="<<" + ", ".join("<<" + ", ".join(f'"{k}"' for k in kinds) + ">>" for _, _, kinds in batch) + ">>",
+                  Gaps='{"sp","sp3","tab","nl","crlf","none"}', Cases='{"upper","lower","mixed"}', CaseBase='"upper"', MaxOdd=1, LitClasses="{}", MaxLit=0,
+                  Mode='"layout"', WithHist="TRUE")
+        g = mc(cs, "corpus skeletons", kinds_of=[kinds for _, _, kinds in batch], base="upper")
+        ntlc[0] += g.distinct
+        ntlc[1] += g.generated
+        behs = g.beh
+        if not thorough and len(behs) > 2500:
+            behs = rnd.sample(behs, 2500)
+        tasks = []
+        for j, (i, ch, kinds) in enumerate(batch):
+            tasks.append((corp[i]["text"].replace("\r\n", "\n"), corp[i]["ctor"], {}))
+        base_n = len(tasks)
+        for b in behs:
+            i, ch, kinds = batch[b["sk"] - 1]
+            tasks.append((render_corpus(ch, b["gaps"], b["cases"]), corp[i]["ctor"], {}))
+        outs, _ = C.parse_many(tasks)
+        for b, tk, o in zip(behs, tasks[base_n:], outs[base_n:]):
+            ref = outs[b["sk"] - 1]
+            if ref[0] != "ok" or not ref[1]:
+                continue
+            n += 1
+            if o != ref:
+                odd_g = [(k, x) for k, x in enumerate(b["gaps"]) if x != "sp"]
+                odd_c = [(k, x) for k, x in enumerate(b["cases"]) if x not in ("-", "upper")]
+                i, ch, kinds = batch[b["sk"] - 1]
+                where = odd_g[0][0] if odd_g else (odd_c[0][0] if odd_c else -1)
+                V.mismatch({"what": "corpus statement re-laid-out", "ddl": tk[0][:1500], "changed": {"gap": odd_g, "case": odd_c},
+                            "at_token": ch[where][0] if where >= 0 else None, "next_token": ch[where + 1][0] if 0 <= where < len(ch) - 1 else None,
+                            "diff": C.diff_paths(ref[1], o[1])[:5] if o[0] == "ok" else o[1:3], "spec_dev": b["dev"]},
+                           tags=b["dev"], paths=["raised"] if o[0] != "ok" else (["entities"] if len(o[1]) != len(ref[1]) else ["content"]))
+    return n, len(sks), ntlc
+
+
 def relayout_corpus(V, thorough, rnd):
     corp = CP.harvest()
     tasks, meta = [], []
     for i, r in enumerate(corp):
         t = r["text"]
-        if "'" in t and re.search(r"'[^']*\n[^']*'", t):
-            continue   # a literal spanning lines: line ends inside it are content (C07), not layout
+        if ("'" in t and re.search(r"'[^']*\n[^']*'", t)) or "\u2018" in t or "\u2019" in t or t.count("'") % 2 \
+                or re.search(r'"[^"]*\n[^"]*"', t) or t.count('"') % 2 or "input.regex" in t:
+            continue   # a literal spanning lines (or typographic quotes, which hide literals from this filter): line ends inside it are content (C07)
         variants = {"crlf": t.replace("\r\n", "\n").replace("\n", "\r\n")}
         if "/*" not in t and "--" not in t and "#" not in t:
             variants["blank_lines"] = t.replace("\n", "\n\n")
@@ -120,8 +285,6 @@ def relayout_corpus(V, thorough, rnd):
         tasks.append((t, r["ctor"], {}))
         meta.append((i, "orig"))
         for k, v in variants.items():
-            if k != "crlf" and not thorough and rnd.random() < 0.5:
-                continue
             tasks.append((v, r["ctor"], {}))
             meta.append((i, k))
     outs, _ = C.parse_many(tasks)
@@ -149,44 +312,53 @@ def run(tier, seed):
     states = trans = 0
     total = 0
     sample = None
-    plans = []
-    for name in SKELETONS:
-        plans.append((name, "upper", 1))
-        plans.append((name, "lower", 1))
-        plans.append((name, "mixed", 0))
-        if thorough:
-            plans.append((name, "mixed", 1))
-            plans.append((name, "upper", 2))
-    if not thorough:
-        plans += [("sequence", "upper", 2), ("alter_drop", "upper", 2), ("index", "lower", 2), ("table_mysql", "mixed", 1), ("alter_rename", "mixed", 1)]
-    for name, base, modd in plans:
-        cs = consts(name, CaseBase=f'"{base}"', MaxOdd=modd, WithHist="TRUE")
-        g = mc(cs, f"{name} base={base} odd<={modd}")
+    names = list(SKELETONS)
+    refs = {}
+    outs, _ = C.parse_many([(canonical(n), {}, {}) for n in names])
+    for n, o in zip(names, outs):
+        if o[0] != "ok" or not o[1]:
+            raise C.MachineryError(f"canonical rendering of skeleton {n} does not parse: {o[:3]}")
+        refs[n] = o
+    plans = [("upper", 1, names), ("lower", 1, names), ("mixed", 0, names)]
+    if thorough:
+        plans += [("mixed", 1, names), ("upper", 2, names)]
+    else:
+        plans += [("upper", 2, ["sequence", "alter_drop", "alter_rename", "alter_fk_update", "table_generated", "table_mysql_glued"]), ("lower", 2, ["index"]), ("mixed", 1, ["table_mysql", "alter_rename", "table_generated", "table_fk"])]
+    for base, modd, use in plans:
+        cs = consts(use[0], CaseBase=f'"{base}"', MaxOdd=modd, WithHist="TRUE")
+        cs["Skeletons"] = "<<" + ", ".join(tla_skeleton(n) for n in use) + ">>"
+        g = mc(cs, f"{len(use)} skeletons base={base} odd<={modd}", kinds_of=[[k for k, _ in SKELETONS[n][1]] for n in use], base=base)
+        print(f"  t={time.time()-t0:.0f}s TLC {base}/{modd}: {len(g.beh)} layouts in {g.wall:.1f}s", flush=True)
         states += g.distinct
         trans += g.generated
         behs = g.beh
-        if not thorough and len(behs) > 1500:
-            behs = rnd.sample(behs, 1500)
-        canon = canonical(name)
-        tasks = [(canon, {}, {})] + [(render(name, b["gaps"], b["cases"]), {}, {}) for b in behs]
+        if not thorough and len(behs) > 9000:
+            behs = rnd.sample(behs, 9000)
+        tasks = [(render(use[b["sk"] - 1], b["gaps"], b["cases"]), {}, {}) for b in behs]
         outs, _ = C.parse_many(tasks)
-        ref = outs[0]
-        if ref[0] != "ok" or not ref[1]:
-            raise C.MachineryError(f"canonical rendering of skeleton {name} does not parse: {ref[:3]}")
         nb = 0
-        for b, tk, o in zip(behs, tasks[1:], outs[1:]):
+        for b, tk, o in zip(behs, tasks, outs):
             total += 1
+            name = use[b["sk"] - 1]
+            ref = refs[name]
             if o != ref:
                 nb += 1
                 paths = ["raised"] if o[0] != "ok" else (["entities"] if len(o[1]) != len(ref[1]) else ["content"])
                 V.mismatch({"skeleton": name, "ddl": tk[0], "gaps": [x for x in b["gaps"] if x != "sp"], "cases": sorted(set(b["cases"]) - {"-"}), "paths": paths,
                             "diff": C.diff_paths(ref[1], o[1])[:5] if o[0] == "ok" else o[1:3], "spec_dev": b["dev"]}, tags=b["dev"], paths=paths)
-        cov["generation"].append({"skeleton": name, "base_case": base, "max_odd": modd, "layouts": len(g.beh), "replayed": len(behs), "mismatches": nb})
+        cov["generation"].append({"skeletons": len(use), "base_case": base, "max_odd": modd, "layouts": len(g.beh), "replayed": len(behs), "mismatches": nb})
         if sample is None and behs:
             b = behs[len(behs) // 2]
-            sample = {"skeleton": name, "gaps": b["gaps"], "cases": b["cases"], "ddl": render(name, b["gaps"], b["cases"])}
+            sample = {"skeleton": use[b["sk"] - 1], "gaps": b["gaps"], "cases": b["cases"], "ddl": render(use[b["sk"] - 1], b["gaps"], b["cases"])}
+    print(f"  t={time.time()-t0:.0f}s hand skeletons done", flush=True)
     ncorp = relayout_corpus(V, thorough, rnd)
+    print(f"  t={time.time()-t0:.0f}s corpus relayout done", flush=True)
     cov["corpus_relayouts"] = ncorp
+    nlay, nsk, ntlc = corpus_layouts(V, CP.harvest(), thorough, rnd, seed)
+    states += ntlc[0]
+    trans += ntlc[1]
+    total += nlay
+    cov["corpus_statement_layouts"] = {"corpus_scripts_used_as_skeletons": nsk, "layouts_replayed": nlay}
     rc = V.finish()
     cov.update({"states": states, "transitions": trans, "traces_validated_against_impl": total + ncorp, "samples": [sample], "exhaustive": thorough,
                 "known_findings_met": V.hits})
